@@ -1365,6 +1365,8 @@ package ucfg
 //@ props C07 C04
 //@ pure
 //@ rvwrites nothing
+//@ ensures [non_interface_is_itself] rvKind(v) != 20 ==> r == v
+//@ loop 1 invariant rvKind(entry(v)) != 20 ==> v == entry(v)
 //@ ensures [naming !unproved] r == chasedI(v)
 
 // C04: a value that takes its setting through a custom Unpack method is validated before it is handed back: the
@@ -1847,11 +1849,6 @@ package ucfg
 
 // selfValid(v): the Validate() method of the value behind v (if it has one) accepts it
 //@ ghost func selfValid(v reflect.Value) bool
-//@ func tryValidate :: val -> result
-//@ trusted
-//@ modifies *
-//@ ensures (result == nil) == selfValid(val)
-//@ rvwrites rvRootOf(val), pointeeStore()
 
 //@ func reifyStruct$1
 //@ props C07
@@ -2197,10 +2194,11 @@ package ucfg
 
 // reifyPrimitive: a configured (non-null) value comes back with the type of the target, pointers included
 //@ func reifyPrimitive :: opts, val, t, baseType -> r, err
-//@ props C06 C07
+//@ props C06 C07 C04
 //@ sweep
 //@ modifies *
 //@ ensures [target_type] err == nil && val != nil && typeof(val) != *cfgNil && t != baseType && rtKind(t) != 20 ==> rvType(r) == t
+//@ ensures [defaults_validated @C04] err == nil && (val == nil || typeof(val) == *cfgNil) ==> recValidW(r, opts.validators)
 
 // FlattenedKeys is a read: it writes nothing but the slice it builds and the scope pointer of its own options (C11);
 // its run-time errors are claimed (C07). C08: the descent never goes back through the exported entry point (which
@@ -2335,3 +2333,27 @@ package ucfg
 //@ func (parseState).finalize$1
 //@ props C07
 //@ pure
+
+// ---------------------------------------------------------------- C04: whose Validate method is consulted
+
+// valRes(x): what the Validate method of x returns (user code; may write anything)
+//@ ghost func valRes(x Validator) error
+//@ iface Validator.Validate :: self -> r
+//@ modifies *
+//@ ensures r == valRes(self)
+
+//@ axiom [chasei] forall v reflect.Value :: rvKind(v) != 20 ==> chasedI(v) == v
+
+// tryValidate: the Validate method consulted is the one of the value itself - of the value an interface holds, not of
+// the interface type of the field or map that holds it
+//@ func tryValidate :: val -> result
+//@ props C04 C07
+//@ sweep
+//@ norte assert
+//@ uses chasei
+//@ modifies *
+//@ rvwrites rvRootOf(val), pointeeStore()
+//@ ensures [naming !unproved] (result == nil) == selfValid(val)
+//@ ensures [nil_is_valid] (rvKind(chasedI(val)) == 22 || rvKind(chasedI(val)) == 20) && rvNil(chasedI(val)) ==> result == nil
+//@ ensures [no_method] !implOf(rvType(chasedI(val)), old(tValidator)) && !implOf(ptrTo(rvType(chasedI(val))), old(tValidator)) ==> result == nil
+//@ ensures [value_receiver] !((rvKind(chasedI(val)) == 22 || rvKind(chasedI(val)) == 20) && rvNil(chasedI(val))) && implOf(rvType(chasedI(val)), old(tValidator)) ==> result == valRes(rvAny(chasedI(val)).(Validator))
